@@ -9,7 +9,7 @@ import (
 
 var substrArgs = []string{"-100", "-10", "-4", "-3", "-2", "-1", "0", "1", "2", "3", "4", "5", "8", "10", "100", "1099511627776", "-1099511627776", "+3", "abc", "", "1.5", "9223372036854775808"}
 var replArgs = []string{"a", "b", "ab", "", "=", "-", "/", "bc"}
-var tokVals = []string{"", "a", "ab", "abc", "abcd", "abcde", "Bearer abcdef", "abcdefghijklmnopqrstuvwxyz", "aXbXc", "MiXeD-Case=1"}
+var tokVals = []string{"", "a", "ab", "abc", "abcd", "abcde", "Bearer abcdef", "abcdefghijklmnopqrstuvwxyz", "aXbXc", "MiXeD-Case=1", "%zz"}
 
 func genChain(r *vh.Rand) (enc []string, ascii bool, text string) {
 	var parts []string
@@ -175,7 +175,8 @@ func genJP(r *vh.Rand) string {
 const jsonOK = `{"a":{"b":"v"},"items":[1,2]}`
 const htmlOK = `<html><head><title>T</title></head><body><a href="x">l</a></body></html>`
 
-func genStep(r *vh.Rand, scenario bool, thorough bool) string {
+// genStep returns the step line and the X-Token value it sends ("" = none).
+func genStep(r *vh.Rand, scenario bool, thorough bool, idx int, prevTok string, prevPlain bool) (string, string, bool) {
 	beh, conn, status, bodyok, body := "status", "ok", 200, 1, "ok"
 	pickBody := func() string {
 		switch r.Intn(7) {
@@ -245,11 +246,25 @@ func genStep(r *vh.Rand, scenario bool, thorough bool) string {
 			pp = fmt.Sprintf("a:%d:%s", r.PickInt([]int{0, 200, 404}), vh.HexS(r.Pick([]string{"ok", "b", "zzz"})))
 		}
 	}
+	tmpl := "-"
+	if scenario {
+		switch k := r.Intn(12); {
+		case k == 0:
+			tmpl = "e"
+		case k < 3 && idx > 0 && prevPlain:
+			// the previous step stores its X-Token unchanged in "tok"; a '%' that is not an escape makes the URI unparsable
+			tmpl = "u" + vh.B(!strings.Contains(prevTok, "%"))
+		}
+	}
+	plain := false
+	if scenario && conn == "ok" && bodyok == 1 && r.Chance(1, 4) {
+		pp, plain = "h:-", true // plain X-Token extraction, no modifier
+	}
 	bf := vh.HexS(body)
 	if strings.HasPrefix(body, "@") {
 		bf = body
 	}
-	return fmt.Sprintf("%s %s %d %d %s %s %s", beh, conn, status, bodyok, bf, vh.HexS(tok), pp)
+	return fmt.Sprintf("%s %s %d %d %s %s %s %s", beh, conn, status, bodyok, bf, vh.HexS(tok), pp, tmpl), tok, plain
 }
 
 func genEng(r *vh.Rand, thorough bool) string {
@@ -262,8 +277,11 @@ func genEng(r *vh.Rand, thorough bool) string {
 	}
 	refused := r.Chance(1, 12)
 	line := fmt.Sprintf("eng %s %s %d %s %d %d", gun, vh.B(r.Chance(2, 3)), inst, vh.B(refused), iters, n)
+	prevTok, prevPlain := "", false
 	for i := 0; i < n; i++ {
-		line += " " + genStep(r, gun == "scenario", thorough)
+		var st string
+		st, prevTok, prevPlain = genStep(r, gun == "scenario", thorough, i, prevTok, prevPlain)
+		line += " " + st
 	}
 	return line
 }
